@@ -207,6 +207,14 @@ TCfgs(root) ==
       [] root.op = "cp_to_parafac2" ->
             {[BaseCfg EXCEPT !.op = "cp_to_parafac2", !.shape = s, !.rank = <<r>>, !.family = f, !.how = h] :
                  r \in 1..(IF s[2] < TMaxRank THEN s[2] ELSE TMaxRank), f \in {"generic", "orthb", "zerocol", "negw"}, h \in {"tuple", "object"}}
+      [] root.op = "svd_compress" ->
+            \* arbitrary ragged slices X_i = L_i R_i (J_i x K, rank <= rho_i = min(J_i, K, cap)), in EVERY order of the slice
+            \* heights (short first, tall first, rank above / below the first slice's height); max_rank None (0), >= n_cols
+            \* or smaller -- but never below a slice's rank, so that every non-zero singular value is kept
+            LET I == s[1]  K == s[2] IN
+            {[BaseCfg EXCEPT !.op = "svd_compress", !.kind = "slices", !.shape = s, !.rank = <<cap>>, !.lens = js,
+                             !.family = "lowrank", !.maxrank = mr, !.thr = t] :
+                 cap \in 1..K, js \in [1..I -> 1..(IF I = 2 THEN 4 ELSE 3)], mr \in 0..(K + 1), t \in {0, 1}}
       [] root.op = "svd_roundtrip" ->
             {[BaseCfg EXCEPT !.op = "svd_roundtrip", !.kind = "p2", !.shape = <<2, x[2]>>, !.rank = <<r>>, !.lens = x[1],
                              !.family = "fullrank", !.maxrank = mr, !.thr = t] :
@@ -218,14 +226,22 @@ TRoots ==
     \cup {[op |-> "pad_ttm", shape |-> s, rank |-> 0] : s \in {x \in [1..4 -> 1..2] : TRUE} \cup [1..2 -> 1..2]}
     \cup {[op |-> "cp_to_parafac2", shape |-> s, rank |-> 0] : s \in [1..3 -> 1..TMaxDim]}
     \cup {[op |-> o, shape |-> <<>>, rank |-> r] : o \in {"normalize_p2", "svd_roundtrip"}, r \in 1..2}
+    \cup {[op |-> "svd_compress", shape |-> <<I, K>>, rank |-> 0] : I \in 2..3, K \in 1..3}
 
 \* array shapes the harness has to fill (C03's FactorShapes on the matching Factorized configuration)
+Min2(a, b) == IF a < b THEN a ELSE b
+SliceRho(c, i) == Min2(Min2(c.lens[i], c.shape[2]), c.rank[1])          \* inner dimension of slice i = bound on its rank
+\* svd_compress_tensor_slices keeps at most min(n_cols, max_rank) singular triplets (all n_cols when max_rank is None)
+RankLimit(K, maxrank) == IF maxrank = 0 THEN K ELSE Min2(K, maxrank)
+KeepsAll(c) == \A i \in 1..Len(c.lens) : SliceRho(c, i) <= RankLimit(c.shape[2], c.maxrank)
 TFactorShapes(c) ==
+    IF c.kind = "slices" THEN [i \in 1..Len(c.lens) |-> <<c.lens[i], SliceRho(c, i)>>] ELSE
     FactorShapes([op |-> c.kind, shape |-> c.shape, rank |-> c.rank, bad |-> "none", at |-> 0, dl |-> 0, modes |-> <<>>])
 TExpand(c) ==
     c @@ [fshapes |-> TFactorShapes(c),
           coreshape |-> IF c.kind = "tucker" THEN c.rank ELSE <<>>,
-          pshapes |-> IF c.kind = "p2" THEN [i \in 1..Len(c.lens) |-> <<c.lens[i], c.rank[1]>>] ELSE <<>>]
+          pshapes |-> IF c.kind = "p2" THEN [i \in 1..Len(c.lens) |-> <<c.lens[i], c.rank[1]>>] ELSE <<>>,
+          rshapes |-> IF c.kind = "slices" THEN [i \in 1..Len(c.lens) |-> <<SliceRho(c, i), c.shape[2]>>] ELSE <<>>]
 
 \* ---- does the (integer) input have the degenerate feature its family promises?
 AllCols(in, P(_, _)) == \A k \in 1..Len(in.fs) : \A r \in 0..(in.fs[k].shape[2] - 1) : P(k, r)
@@ -251,6 +267,7 @@ TGenIn(c, axis) ==
     CASE c.kind = "cp"     -> [hasw |-> c.family # "now", w |-> IF c.family # "now" THEN GenW(R, 1) ELSE <<>>, fs |-> fs]
       [] c.kind = "tucker" -> [core |-> GenT(c.rank, 9), fs |-> fs]
       [] c.kind \in {"tt", "tr", "ttm"} -> [fs |-> fs]
+      [] c.kind = "slices" -> [fs |-> fs, rs |-> [i \in 1..Len(c.lens) |-> GenT(<<SliceRho(c, i), c.shape[2]>>, i + 3)]]
       [] c.kind = "p2"     -> [hasw |-> c.family # "now", w |-> IF c.family # "now" THEN GenW(R, 1) ELSE <<>>, fs |-> fs,
                                ps |-> [i \in 1..Len(c.lens) |-> SelP(c.lens[i], R, i)], pden |-> 1]
 GenM(J, I) == GenT(<<J, I>>, 4)
@@ -258,8 +275,14 @@ GenV(I)    == [k \in 1..I |-> ((k * 3 + 1) % 5) - 2]
 
 TCfgOK(c) ==
     LET in == TGenIn(c, FALSE)  kd == c.kind IN
-    /\ Valid(kd, in)
-    /\ CASE c.op = "cp_flip_sign" ->
+    /\ (kd # "slices" => Valid(kd, in))
+    /\ CASE c.op = "svd_compress" ->
+              \* the slices have the promised shapes, and their rank bound fits under the number of kept singular triplets
+              /\ KeepsAll(c)
+              /\ \A i \in 1..Len(c.lens) : MatMul(in.fs[i], in.rs[i]).shape = <<c.lens[i], c.shape[2]>>
+              \* the property's interesting corner exists in the domain: a first slice shorter than n_cols ...
+              /\ (c.lens[1] < c.shape[2] /\ c.lens[2] > c.lens[1] => SliceRho(c, 1) <= c.lens[1])
+         [] c.op = "cp_flip_sign" ->
               LET out == FlipRef(in, c.mode) IN
               /\ CPDense(out) = CPDense(in) /\ FlipCanonExact(out, c.mode)
               /\ FlipRef(out, c.mode) = out                                   \* idempotent
@@ -302,10 +325,17 @@ Checksum(c) == SumSeq(c.shape) * 7 + SumSeq(c.rank) * 3 + c.mode * 5 + c.odim + 
                + (IF c.keep THEN 1 ELSE 0) + (IF c.copy THEN 2 ELSE 0) + (IF c.padb THEN 3 ELSE 0)
                + IdxIn(c.family, FamilyNames) + 4 * IdxIn(c.how, HowNames) + Len(c.shape)
 Kept(c) == \/ Thin = 1
-           \/ c.op \in {"cp_permute_factors", "svd_roundtrip", "cp_to_parafac2"} \/ c.kind \in {"p2", "ttm"}
+           \/ c.op \in {"cp_permute_factors", "svd_roundtrip", "cp_to_parafac2", "svd_compress"} \/ c.kind \in {"p2", "ttm"}
            \/ Checksum(c) % Thin = 0
 TInit == cfg \in TRoots
-TNext == "shape" \in DOMAIN cfg /\ "family" \notin DOMAIN cfg /\ cfg' \in {TExpand(c) : c \in {x \in TCfgs(cfg) : Kept(x)}}
+\* svd_compress: only the keep-everything part of the option space is in the property's domain; the tall option
+\* products (threshold with an explicit max_rank; three slices with the wide max_rank range) are left to the 2-slice family
+InSvdDomain(c) == c.op = "svd_compress" =>
+                    /\ KeepsAll(c)
+                    /\ (c.thr = 1 => c.maxrank = 0)
+                    /\ (Len(c.lens) = 3 => c.thr = 0 /\ c.maxrank \in {0, c.rank[1]})
+TNext == "shape" \in DOMAIN cfg /\ "family" \notin DOMAIN cfg
+         /\ cfg' \in {TExpand(c) : c \in {x \in TCfgs(cfg) : Kept(x) /\ InSvdDomain(x)}}
 TSpec == TInit /\ [][TNext]_cfg
 TSpecOK == "family" \in DOMAIN cfg => TCfgOK(cfg)
 =============================================================================
